@@ -26,8 +26,9 @@ RULE = ("strings: every byte string of length <= 3 (thorough <= 4) over the boun
         "{00,7F,80,8F,90,9F,A0,BF,C0,C1,C2,DF,E0,E1,EC,ED,EE,EF,F0,F1,F3,F4,F5,F7,F8,FF}, decoded at EVERY position, "
         "plus random strings of 5..40 bytes mixing valid runes, truncations, overlongs, surrogates and raw bytes; "
         "runes: 14 encoding boundaries +-1, int32/uint32 extremes, random; slicing: every (lo,hi) in [-1,len+2]^2 and the "
-        "low-only form on one string per length 0..6; literals: all 256 single bytes, all pairs over a 24-byte escape "
-        "alphabet, random constants; programs: tables of strings spelled as \\x / quoted / raw / concatenated literals. "
+        "low-only form on one string per length 0..6; literals: all 256 single bytes, all pairs over a 26-byte escape "
+        "alphabet, random constants; programs: tables of strings (always incl. %-verbs, $-patterns, comment/template markers) spelled as \\x / quoted / raw / octal / concatenated "
+        "literals, used in initialisers AND as operands of if / else-if / switch-case / tagless-switch / for conditions against run-time copies. "
         "non-trivial = string contains a byte >= 0x80 (or an escape for literals); distinct by input")
 TRUSTED = ["hand-written model of prelude.js:188-360 and utils.go encodeString (coq/Model/C14_*.v), tied by this correspondence",
            "native Go 1.23 (utf8, conversions, slicing) as the reference of the specification side in the check; the Coq "
@@ -44,7 +45,7 @@ ASSUMPTIONS = ["Go strings are JS strings whose code units are all < 256 (establ
 ALPH26 = [0x00, 0x7F, 0x80, 0x8F, 0x90, 0x9F, 0xA0, 0xBF, 0xC0, 0xC1, 0xC2, 0xDF, 0xE0, 0xE1, 0xEC, 0xED, 0xEE, 0xEF,
           0xF0, 0xF1, 0xF3, 0xF4, 0xF5, 0xF7, 0xF8, 0xFF]
 BOUNDARY_RUNES = [0, 0x7F, 0x80, 0x7FF, 0x800, 0xD7FF, 0xD800, 0xDFFF, 0xE000, 0xFFFD, 0xFFFF, 0x10000, 0x10FFFF, 0x110000]
-ESC_ALPH = [0, 7, 8, 9, 10, 11, 12, 13, 0x1F, 0x20, 0x22, 0x27, 0x2F, 0x3C, 0x5C, 0x60, 0x62, 0x78, 0x7E, 0x7F, 0x80, 0xC8, 0xE2, 0xFF]
+ESC_ALPH = [0, 7, 8, 9, 10, 11, 12, 13, 0x1F, 0x20, 0x22, 0x24, 0x25, 0x27, 0x2F, 0x3C, 0x5C, 0x60, 0x62, 0x78, 0x7E, 0x7F, 0x80, 0xC8, 0xE2, 0xFF]
 
 
 def prepare(ctx):
@@ -465,8 +466,10 @@ def go_quote(bs, style):
 def gen_program(r, idx, quick):
     pool = [b"", b"a", b"abc", b"ab\x00c", b'q"uo\\te', b"\n\r\t\x08\x0b\x0c", b"\xc3\xa9", b"\xe2\x82\xac", b"\xf0\x9f\x98\x80",
             b"\xff", b"\xc0\x80", b"\xed\xa0\x80", b"\xf4\x90\x80\x80", b"\xe2\x82", b"a\xe2\x80\xa8b", b"\xef\xbf\xbd", b"\x80", b"ab", b"b", b"\x7f"]
+    meta = [b"%d", b"%%", b"%s=%v", b"a%20b", b"100%", b"%", b"%!", b"%!d(MISSING)", b"%[1]d%v", b"50%% off", b"%+q\n", b"%c%U", b"%\x00%",
+            b"$&", b"$1$$", b"${x}", b"{{.}}", b"*/ x /*", b"// c", b"</script>", b"%\xff%d", b'%"q\\%', b"\n%\t%s", b"'%'"]
     n = 14 if quick else 22
-    tab = []
+    tab = r.sample(meta, 5 if quick else 9)            # always some literals that a formatting / templating step would rewrite
     while len(tab) < n:
         k = r.random()
         if k < 0.4: s = r.choice(pool)
@@ -481,7 +484,8 @@ def gen_program(r, idx, quick):
     for s in tab:
         if s not in distinct:
             distinct.append(s)
-    swc = distinct[:8]
+    swc = distinct[:10]
+    condk = [k for k, s in enumerate(tab) if len(s) <= 20]
     runes = sorted(set(x + d for x in BOUNDARY_RUNES for d in (-1, 0, 1))) + [r.randint(0, 0x10FFFF) for _ in range(6)] + [-2 ** 31, 2 ** 31 - 1]
     L = ["package main", "", "var T = []string{"]
     L += ["\t%s," % l for l in lits]
@@ -546,6 +550,46 @@ func sw(s string) int {
 	return -1
 }
 
+""")
+    for k in condk:
+        lit = [go_quote(tab[k], r.choice(styles)) for _ in range(9)]
+        L.append("""
+// the constant T[%d] as operand of if / else-if / switch-case / tagless switch / for conditions; rt holds the same bytes built at run time
+func cond%d(s, rt string) int {
+	r := 0
+	if rt == %s {
+		r |= 1
+	}
+	if s == %s {
+		r |= 2
+	} else if s+"x" != %s+"x" {
+		r |= 4
+	}
+	switch rt {
+	case %s + "\\x00":
+		r |= 8
+	case %s:
+		r |= 16
+	}
+	switch {
+	case rt != %s:
+		r |= 32
+	case len(rt) == len(%s):
+		r |= 64
+	}
+	n := 0
+	for t := s + "x"; t != %s && n < 3; n++ {
+		t = rt
+	}
+	r |= n << 8
+	for rt+"y" > %s+"y" || n > 5 {
+		n += 100
+		break
+	}
+	return r | n<<12
+}""" % ((k, k) + tuple(lit)))
+    L.append("var CONDS = []func(s, rt string) int{%s}" % ", ".join("cond%d" % k if k in condk else "nil" for k in range(len(tab))))
+    L.append(r"""
 func main() {
 	for k, s := range T {
 		println("LEN", k, len(s))
@@ -581,6 +625,10 @@ func main() {
 		}
 		println("BYS", k, len(bs), dg(string(bs)), dg(s))
 		println("SWI", k, sw(s))
+		if CONDS[k] != nil {
+			rt := string(append([]byte(nil), s...))
+			println("CND", k, CONDS[k](T[(k+1)%len(T)], rt), CONDS[k](rt, rt+""))
+		}
 		// the same conversions through named element, slice and string types, and from sub-slices
 		nr := []myRune(s)
 		println("NRU", k, len(nr), dg(string(nr)), dg(string(myNamedRunes(nr))))
@@ -681,7 +729,7 @@ def run_program(ctx, i, src):
     if rc == 124:
         return dict(skip="node run timed out")
     if rc != 0:
-        return dict(error="node run failed: " + (err or out)[-600:])
+        return dict(error="node run failed: " + (err or out)[-600:], syntax="SyntaxError" in (err or out))
     js_lines = [l for l in (out + err).split("\n") if re.match(r"[A-Z0-9]{3} ", l)]
     rc, out, err = C.sh2(["go", "run", "."], cwd=d, env=C.goenv(), timeout=600)
     if rc == 124:
@@ -706,7 +754,11 @@ def programs(ctx, model):
         if "error" in res:
             if res.get("native"):
                 raise C.BuildError("generated C14 program rejected by native Go: " + res["error"])
-            ctx.violation("program-build-or-run-failed", res["error"][:300], dict(kind="program", source=src, log=res["error"]), concrete=False)
+            if res.get("syntax"):
+                ctx.violation("program-output-is-not-valid-javascript", "the compiled program is rejected by node with a SyntaxError (native Go runs it): " + res["error"][-200:],
+                              dict(kind="program", source=src, log=res["error"]))
+            else:
+                ctx.violation("program-build-or-run-failed", res["error"][:300], dict(kind="program", source=src, log=res["error"]), concrete=False)
             continue
         js, go = res["js"], res["go"]
         nlines += len(go)
